@@ -21,6 +21,9 @@ pub struct GenCfg {
     pub imports: bool,
     /// percentage of references to imported types written as external references `Module.Type`
     pub qualified_refs_pct: u32,
+    /// per cent of OBJECT IDENTIFIER value assignments whose first component is an earlier OID
+    /// value of the same module (`oid2 OBJECT IDENTIFIER ::= { oid1 5 }`)
+    pub oid_prefix_pct: u32,
     pub recursion: bool,
     pub any: bool,
     pub set_types: bool,
@@ -96,6 +99,7 @@ impl Default for GenCfg {
             values: true,
             imports: true,
             qualified_refs_pct: 0,
+            oid_prefix_pct: 0,
             recursion: true,
             any: false,
             set_types: true,
@@ -1410,9 +1414,21 @@ impl<'s, 'a> Gen<'s, 'a> {
                         strip_cons(&mut l);
                         l
                     };
-                    if let Some(val) = self.value_for(&ty, 0) {
+                    if let Some(mut val) = self.value_for(&ty, 0) {
                         if matches!(ty, Ty::Enumerated(_) | Ty::RelOid | Ty::Any) {
                             continue;
+                        }
+                        if self.cfg.oid_prefix_pct > 0 && ty == Ty::Oid {
+                            let earlier: Vec<String> = self.values.iter().filter(|(m, _, t, _)| *m == mi && *t == Ty::Oid).map(|(_, n, _, _)| n.clone()).collect();
+                            if !earlier.is_empty() && self.src.chance(self.cfg.oid_prefix_pct) {
+                                let base = earlier[self.src.pick(earlier.len())].clone();
+                                let extra = 1 + self.src.pick(3);
+                                let mut arcs = vec![OidArc::Name(base)];
+                                for _ in 0..extra {
+                                    arcs.push(OidArc::Num(self.src.range(0, 100000) as u64));
+                                }
+                                val = Val::Oid(arcs);
+                            }
                         }
                         self.values.push((mi, vname.clone(), ty.clone(), val.clone()));
                         modules[mi].items.push(Item::Value {
